@@ -151,22 +151,23 @@ func (mavls *Store) Commit(req *types.ReqHash) ([]byte, error) {
 	defer func() {
 		mlog.Debug("Commit", "cost", types.Since(beg))
 	}()
-	tree, ok := mavls.trees.Load(string(req.Hash))
+	// take the pending tree out of the map before saving it: a tree is not safe for concurrent use,
+	// and while it is being saved neither a second Commit nor a Get of the same hash may touch it
+	tree, ok := mavls.trees.LoadAndDelete(string(req.Hash))
 	if !ok {
 		mlog.Error("store mavl commit", "err", types.ErrHashNotFound)
 		return nil, types.ErrHashNotFound
 	}
 	if tree == nil {
 		mlog.Info("store mavl commit,do nothing for kvset is null")
-		mavls.trees.Delete(string(req.Hash))
 		return req.Hash, nil
 	}
 	hash := tree.(*mavl.Tree).Save()
 	if hash == nil {
 		mlog.Error("store mavl commit", "err", types.ErrHashNotFound)
+		mavls.trees.Store(string(req.Hash), tree)
 		return nil, types.ErrDataBaseDamage
 	}
-	mavls.trees.Delete(string(req.Hash))
 	return req.Hash, nil
 }
 
